@@ -109,10 +109,12 @@ PROPS = {
         # other families' workloads (with their own specification oracles) re-run under non-default table
         # configurations: --ct style,stale,maxsize
         "quick": [fam("ctable"), fam("ctstress"), fam("arith", ct="1,0,1024", cases=300), fam("reach", ct="3,2,0", cases=600, allow="F4,F10"),
-                  fam("image", ct="2,1,1024", cases=800), fam("copy", ct="1,2,0", cases=300)],
-        "thorough": [fam("ctable", "asan"), fam("ctstress", "asan"), fam("arith", "asan", ct="1,0,1024"), fam("arith", "asan", ct="3,2,0"),
-                     fam("reach", "asan", ct="3,2,0", allow="F4,F10"), fam("reach", "asan", ct="1,1,1024", allow="F4,F10"),
-                     fam("image", "asan", ct="2,1,1024"), fam("copy", "asan", ct="1,2,0"), fam("setops", "asan", ct="3,0,1024")],
+                  fam("image", ct="2,1,1024", cases=800), fam("copy", ct="1,2,0", cases=300), fam("oplife", ct="3,1,1024", cases=250)],
+        # (case counts bounded: under the sanitizer the full thorough workloads of five other families took 48 minutes)
+        "thorough": [fam("ctable", "asan"), fam("ctstress", "asan"), fam("arith", "asan", ct="1,0,1024", cases=1500), fam("arith", "asan", ct="3,2,0", cases=1500),
+                     fam("reach", "asan", ct="3,2,0", allow="F4,F10", cases=5000), fam("reach", "asan", ct="1,1,1024", allow="F4,F10", cases=5000),
+                     fam("image", "asan", ct="2,1,1024", cases=8000), fam("copy", "asan", ct="1,2,0", cases=1500), fam("setops", "asan", ct="3,0,1024", cases=2000),
+                     fam("oplife", "asan", ct="1,1,1024", cases=1500)],
         "leanchecker": ["MeddlyModel.State.ComputeTable"],
         "level_text": "Specification automaton CT (lossy map: any entry may disappear at any step; a hit is accepted only if it is the most recent add for that key and none of its nodes or its entry type was dead at any time since). Theorems for every accepted trace: ct_trace_sound, cc_exact (cache count = occurrences in live entries), no_reuse_while_cached, lossy_ok (a client that recomputes on a miss observes the same results under EVERY loss schedule as with an empty table). Tie: trace validation of findCT/addCT/removeStales/removeAll against real nodes that are created, released and re-created (handle reuse), under all 4 styles x 3 stale policies x maxSize in {1,1024,2048,default}; plus an end-to-end script of real operations executed under several configurations whose result tables must be identical and equal to the pointwise oracle; plus family ctstress: under each of the four table styles thousands of real operations with key shapes of 2 to 5 items (EV+ MULTIPLY/PLUS/MIN/MAX, MT arithmetic and comparisons) over pools of functions sharing key prefixes, warm tables and recycled handles, every result compared with the scalar oracle.",
         "level_note": "NodeLifeOK (a dead node with cache count > 0 stays dead, searched keys mention no dead node) is a hypothesis owed by C06's NodeLife model and is monitored in the trace, not proved here. In unchained styles silent evictions make only an upper bound of the cache count checkable from the trace; exactness there rests on cc = countAllNodeEntries of the real table. lossy_ok is for a flat client, not a recursive apply. Hash quality/performance not modelled.",
@@ -165,8 +167,10 @@ PROPS = {
                                     "Meddly.NodeLife.counts_exact", "Meddly.NodeLife.all_reclaimed", "Meddly.NodeLife.all_reclaimed_pessimistic"],
         # other families' workloads re-run under forced non-default policies: --forcepol storage,manager,deletion
         "quick": [fam("policy"), fam("arith", forcepol="1,2,2", cases=300), fam("image", forcepol="0,3,2", cases=800),
-                  fam("setops", forcepol="1,0,0", cases=200), fam("canon", forcepol="0,2,2", cases=80)],
-        "thorough": [fam("policy", "asan"), fam("arith", "asan", forcepol="1,2,2"), fam("arith", "asan", forcepol="0,3,0"),
+                  fam("setops", forcepol="1,0,0", cases=200), fam("canon", forcepol="0,2,2", cases=80),
+                  fam("oplife", forcepol="1,3,2", cases=250), fam("oplife", forcepol="0,1,1", cases=250)],
+        "thorough": [fam("policy", "asan"), fam("arith", "asan", forcepol="1,2,2", cases=3000), fam("arith", "asan", forcepol="0,3,0", cases=3000),
+                     fam("oplife", "asan", forcepol="1,3,2"), fam("oplife", "asan", forcepol="0,0,1"),
                      fam("image", "asan", forcepol="0,3,2"), fam("setops", "asan", forcepol="1,0,0"), fam("canon", "asan", forcepol="0,2,2"),
                      fam("copy", "asan", forcepol="1,3,2"), fam("build", "asan", forcepol="1,0,2")],
         "level_text": "The model has no storage / memory-manager / deletion parameters at all: every result is the unique reduced tree of its denotation (DD.canon, apply*_unique), so whatever a policy does, an implementation that passes the canonical-form certificate and denotes the specified function has the same node count and structure. The policy-dependent components are each shown to refine a policy-free abstraction: every memory manager refines Alloc with live contents untouched (C18 theorems), node lifetime is policy-parametric (C06). Tie: one scripted allocation-heavy history (build / operate / release / cache clears) executed under the reference policy and 8 (quick) or all 36 (thorough) combinations of 3 storage flags x 4 managers x 3 deletion policies; every result table is compared with the specification oracle, per-edge node and edge counts with the reference configuration, and every configuration's forest passes the verified certificate checker and ends with zero nodes after release.",
